@@ -508,6 +508,29 @@ def cos(r):
     return Rat(Poly.atom(_intern(("cos", p.key()))))
 
 
+def log(r):
+    """log(exp(u)) = u ; log(1) = 0 ; otherwise an opaque atom"""
+    r = _R(r)
+    if r.equals(1):
+        return const(0)
+    # single-term numerator and denominator made only of one exp atom (and a positive constant 1)
+    def only_exp(p):
+        if len(p.t) != 1:
+            return None
+        (m, c), = p.t.items()
+        if c != 1:
+            return None
+        if m == ():
+            return Poly()
+        if len(m) == 1 and m[0][1] == 1 and _ATOM_LIST[m[0][0]][0] == "exp":
+            return _poly_from_key(_ATOM_LIST[m[0][0]][1])
+        return None
+    a, b = only_exp(r.n), only_exp(r.d)
+    if a is not None and b is not None:
+        return Rat(a - b)
+    return fn("log", r)
+
+
 def cosh(r):
     return (exp(r) + exp(-_R(r))) / 2
 
